@@ -6,6 +6,7 @@ use std::io::{BufRead, Write};
 
 mod script;
 mod stmt;
+mod ddl;
 
 fn cps(s: &str) -> J {
     J::Array(s.chars().map(|c| json!(c as u32)).collect())
